@@ -110,6 +110,25 @@ def wellposed(rng, n=None, p=None, m=None, mu=None, dens=None):
     return pr
 
 
+def permuted(pr, perm):
+    """the same problem with its variables renumbered (variable j of the result is variable perm[j] of `pr`): same
+    dimensions, same number of stored entries in P, A, G — in general another sparsity pattern"""
+    n, p, m = pr.n, pr.p, pr.m
+    q = DProblem(n, p, m)
+    q.P = [[pr.P[perm[i]][perm[j]] for j in range(n)] for i in range(n)]
+    q.c = [pr.c[perm[j]] for j in range(n)]
+    q.A = [[pr.A[i][perm[j]] for j in range(n)] for i in range(p)]
+    q.b = list(pr.b)
+    q.G = [[pr.G[i][perm[j]] for j in range(n)] for i in range(m)]
+    q.h = list(pr.h)
+    q.lb = None if pr.lb is None else [pr.lb[perm[j]] for j in range(n)]
+    q.ub = None if pr.ub is None else [pr.ub[perm[j]] for j in range(n)]
+    q.maskP = None if pr.maskP is None else [[pr.maskP[perm[i]][perm[j]] for j in range(n)] for i in range(n)]
+    q.maskA = None if pr.maskA is None else [[pr.maskA[i][perm[j]] for j in range(n)] for i in range(p)]
+    q.maskG = None if pr.maskG is None else [[pr.maskG[i][perm[j]] for j in range(n)] for i in range(m)]
+    return q
+
+
 DEFAULTS = {}
 
 
